@@ -97,17 +97,62 @@ def fn_body(src, name):
     return src[k + 1:e - 1]
 
 
-def tokens(body, pats):
-    """pats: list of (regex, code or callable(match) -> code/list/None); returns [(pos, codes)] sorted"""
-    out = []
+# ---- ANY file-system effect (code 197 = an effect the model does not know).  Every function body the extractor
+# reads is scanned with these patterns as well; a match that no specific pattern of that function claims (same
+# text position) puts 197 into the list at its position, so the obligation fails: an effect ADDED to a write
+# path (an unlink before the rename, a second write, a truncate, a sync ..) can never go unnoticed just because
+# the extractor was only looking for the effects it already knew.
+FS_READONLY = {"read", "read_to_string", "read_dir", "metadata", "symlink_metadata", "canonicalize", "exists",
+               "try_exists", "read_link", "create_dir_all", "create_dir"}   # mkdir -p is idempotent and holds no data
+GENERIC_EFFECTS = [
+    (r"\b(?:std::)?fs::(\w+)\s*\(", lambda m: None if m.group(1) in FS_READONLY else 197),
+    (r"\bFile::(\w+)\s*\(", lambda m: None if m.group(1) == "open" else 197),
+    (r"\bOpenOptions\b", 197),
+    (r"\.(write_all|write_fmt|write_vectored|write_all_at|write_at|write_all_vectored|sync_all|sync_data|set_len|"
+     r"set_permissions|set_modified|seek|rewind|persist|persist_noclobber)\s*\(", 197),
+    (r"\.write\s*\(\s*[^)\s]", 197),                      # .write(buf): not RwLock::write()
+    (r"\.flush\s*\(", 197),
+    (r"\b(write|writeln)!\s*\(", 197),
+    (r"(?<![\w:.])(remove_file|remove_dir|remove_dir_all|rename|hard_link|copy|symlink|truncate)\s*\(", 197),
+]
+UNKNOWN_SEEN = []
+
+
+def tokens(body, pats, strict=True):
+    """pats: list of (regex, code or callable(match) -> code/list/None); returns [(pos, codes)] sorted.
+    strict: every generic file-system effect in the body that no pattern claims yields code 197 at its position"""
+    out, spans = [], []
     for rx, code in pats:
         for m in re.finditer(rx, body):
             c = code(m) if callable(code) else code
             if c is None:
                 continue
             out.append((m.start(), c if isinstance(c, list) else [c]))
+            spans.append((m.start(), m.end()))
+    if strict:
+        seen = set()
+        for rx, code in GENERIC_EFFECTS:
+            for m in re.finditer(rx, body):
+                c = code(m) if callable(code) else code
+                if c is None or any(a < m.end() and m.start() < b for a, b in spans) or m.start() in seen:
+                    continue
+                seen.add(m.start())
+                out.append((m.start(), [c]))
+                UNKNOWN_SEEN.append(body[max(0, m.start() - 20):m.end() + 20].replace("\n", " "))
     out.sort(key=lambda x: x[0])
     return out
+
+
+# callee / macro names allowed in the two leaf writers (save_index, write_blob_atomic): everything else (a helper
+# that might touch the file system) is an unknown effect too
+LEAF_PURE = {"Some", "Ok", "Err", "parent", "create_dir_all", "to_string_pretty", "to_vec_pretty", "to_vec", "to_string",
+             "map_err", "new", "with_extension", "point", "write", "rename", "format", "join", "blobs_dir", "clone",
+             "artifacts_blobs_dir", "as_bytes", "as_ref", "display", "into", "to_path_buf", "as_path", "cfg", "if", "let", "match", "fn", "return"}
+
+
+def leaf_unknown_calls(body):
+    names = [m.group(1) for m in re.finditer(r"\b(\w+)\s*!?\s*\(", body)]
+    return sorted({n for n in names if n not in LEAF_PURE})
 
 
 def flat(toks):
@@ -178,11 +223,18 @@ def extract(repo):
     # ---- save_index, write_blob_atomic (both copies)
     body = fn_body(cont, "save_index")
     g["save_index"] = flat(tokens(body, [point_pat(), (r"fs::write\(", 108), (r"fs::rename\(", 109)])) if body is not None else []
+    g["leaf_calls_ok"] = True
+    if body is not None and leaf_unknown_calls(body):
+        g["leaf_calls_ok"] = False
+        notes.append(f"save_index calls something the extractor does not know: {leaf_unknown_calls(body)}")
     g["write_blob"] = []
     blobs = []
     for src, nm in ((summ, "compaction_summary.rs"), (bund, "handoff_context_bundle.rs")):
         body = fn_body(src, "write_blob_atomic")
         blobs.append(flat(tokens(body, [point_pat(), (r"fs::write\(", 110), (r"fs::rename\(", 111)])) if body is not None else [])
+        if body is not None and leaf_unknown_calls(body):
+            g["leaf_calls_ok"] = False
+            notes.append(f"write_blob_atomic ({nm}) calls something the extractor does not know: {leaf_unknown_calls(body)}")
     if blobs[0] and blobs[0] == blobs[1]:
         g["write_blob"] = blobs[0]
     else:
@@ -280,6 +332,8 @@ def main():
     L.append(f"Definition gen_save_index : list N := {coq_list(g['save_index'])}.")
     L.append(f"Definition gen_write_blob : list N := {coq_list(g['write_blob'])}.")
     L.append(f"Definition gen_writers_use_atomic : bool := {coq_bool(g['writers_use_atomic'])}.")
+    L.append("(* save_index / write_blob_atomic call nothing but the known effects and pure helpers *)")
+    L.append(f"Definition gen_leaf_calls_ok : bool := {coq_bool(g['leaf_calls_ok'])}.")
     L.append(f"Definition gen_artifact_before_frame : bool := {coq_bool(g['artifact_before_frame'])}.")
     L.append("Definition gen_locked : list (list N) :=\n  [" + ";\n   ".join(f"(* {fn} *) {coq_list(xs)}" for fn, xs in g["locked"]) + "].")
     L.append(f"Definition gen_create_locked : list N := {coq_list(g['create_locked'])}.")
@@ -313,7 +367,7 @@ def main():
     L.append("  && lN_eqb gen_rebuild (skel (rebuild 0 [fr0]))")
     L.append("  && lN_eqb gen_save_index (skel save_index)")
     L.append("  && lN_eqb gen_write_blob (skel (write_blob 0))")
-    L.append("  && gen_writers_use_atomic && gen_artifact_before_frame")
+    L.append("  && gen_writers_use_atomic && gen_artifact_before_frame && gen_leaf_calls_ok")
     L.append("  && Nat.eqb (length gen_locked) 11")
     L.append("  && forallb (fun l => lN_eqb l locked_spec && lN_eqb (modelled l) (skel (locked_append fixed st_warm 0 0 10 None))) gen_locked")
     L.append("  && lN_eqb gen_create_locked create_locked_spec")
@@ -333,6 +387,8 @@ def main():
     open(os.path.join(a.out, "CrashEffects.v"), "w").write("\n".join(L) + "\n")
     for n in notes:
         print(n)
+    for u in UNKNOWN_SEEN:
+        print("UNKNOWN file-system effect (code 197):", u)
     print("log_append", g["log_append"], "side_append", g["side_append"], "derived", g["derived_order"])
     print("locked[0]", g["locked"][0] if g["locked"] else None)
     print("create_locked", g["create_locked"], "branch", g["branch"], "handoff", g["handoff"], "load_next", g["load_next"])
